@@ -53,6 +53,33 @@ theorem red_on_kernel_step_refines (c : Cfg ℚ) (gaps : List ℚ) (sizes : List
     · show (outsV (viewsOf s''.trace)).map _ = (outsV (viewsOf s.trace)).map _ ++ _
       rw [h4]; simp
 
+/-- a concrete run (non-vacuity of every hypothesis: gaps ≥ 0, `initial_delay = 1`, 8 draws for 8 gaps): a burst of four
+one-byte packets at `t = 1`, then one per time unit, `rate = 8` (one time unit each), packet-count figures
+(`limit_bytes = False`), `weight_factor = 0` (the average is the current figure), `min_th = 1`, `max_th = 2`,
+`qlimit = 3`, `max_p = 1/2`, `finish = 4`: the figures at the arrivals are 0, 0, 1, 2, 2, 2, 2, draws are consumed from
+the third arrival on, packets 5 and 7 are refused (draws `1/8` and `1/2` ≤ `1/2`), the generator stops at the loop test
+at `t = 4`, the sink records the five forwarded packets -/
+example : (finalState (runAll (body ({ rate := 8, qlimit := 3, maxTh := 2, minTh := 1, maxP := 1/2, w := 0, limitBytes := false, initialDelay := 1, finish := some 4 } : Cfg ℚ) [1, 1, 1, 1, 1, 1, 1, 1]) 1 37
+      (initState [0, 0, 0, 0, 1, 1, 1, 1] [1, 1, 1, 1, 1, 1, 1, 1] [1/4, 3/4, 1/8, 7/8, 1/2, 1/2, 1/2, 1/2]))).map
+      (fun s => (s.agenda.length, gensOf s.trace, usOf s.trace, outsOf s.trace)) =
+    some (0, [(1, 1), (2, 1), (3, 1), (4, 1), (5, 2), (6, 3), (7, 4)], [0, 0, 1/4, 3/4, 1/8, 7/8, 1/2],
+      [(1, 2), (2, 3), (3, 4), (4, 5), (6, 6)]) := by
+  decide +kernel
+
+example : (finalState (runAll (body ({ rate := 8, qlimit := 3, maxTh := 2, minTh := 1, maxP := 1/2, w := 0, limitBytes := false, initialDelay := 1, finish := some 4 } : Cfg ℚ) [1, 1, 1, 1, 1, 1, 1, 1]) 1 37
+      (initState [0, 0, 0, 0, 1, 1, 1, 1] [1, 1, 1, 1, 1, 1, 1, 1] [1/4, 3/4, 1/8, 7/8, 1/2, 1/2, 1/2, 1/2]))).map
+      (fun s => (intsOf "drop" s.trace, cellInt s cReceived, cellInt s cDropped, cellInt s cSinkCnt, cellInt s cSinkBytes)) =
+    some ([(5, 2), (7, 4)], 7, 2, 5, 5) := by
+  decide +kernel
+
+/-- the same workload with byte figures (`limit_bytes = True`, `qlimit = 3` bytes): the figure counts the packet in
+transmission too, the average reaches `qlimit` at the fourth arrival of the burst, which is refused without a draw -/
+example : (finalState (runAll (body ({ rate := 8, qlimit := 3, maxTh := 2, minTh := 1, maxP := 1/2, w := 0, limitBytes := true, initialDelay := 1, finish := none } : Cfg ℚ) [1, 1, 1, 1]) 1 21
+      (initState [0, 0, 0, 0] [1, 1, 1, 1] [3/4, 3/4, 3/4, 3/4]))).map
+      (fun s => (usOf s.trace, outsOf s.trace, intsOf "drop" s.trace, cellInt s cDropped)) =
+    some ([0, 3/4, 3/4, 0], [(1, 2), (2, 3), (3, 4)], [(4, 1)], 1) := by
+  decide +kernel
+
 /-- **Refinement, whole runs**: every state reachable by kernel steps is the image of an *admissible* run of the RED port
 LTS from its initial state: the LTS accepts some action sequence that ends in `absRED s`, in which the departed packets are
 the `out.put` observations of the kernel trace, in order; the accepted packets `ins` together with `packets_dropped`
